@@ -417,7 +417,7 @@ pub fn mutate(r: &mut Rng, root: &mut Node) -> &'static str {
     let mut idx = r.below(total);
     let n = nth_node(root, &mut idx).unwrap();
     let w_of = |t: &Ty| match t { Ty::Bin { large, .. } | Ty::List { large, .. } | Ty::ListView { large, .. } => if *large { 8 } else { 4 }, Ty::Dict { kw, .. } => *kw, Ty::Fixed(w) => *w, Ty::View { .. } => 16, _ => 1 };
-    match r.below(22) {
+    match r.below(24) {
         0 => { n.len += 1 + r.below(3); "len_plus" }
         1 => { n.off += 1 + r.below(3); "off_plus" }
         2 => { if let Some(b) = n.bufs.first_mut() { if !b.is_empty() { let k = 1 + r.below(b.len().min(5)); b.truncate(b.len() - k); return "buf0_short" } } "none" }
@@ -452,6 +452,18 @@ pub fn mutate(r: &mut Rng, root: &mut Node) -> &'static str {
         18 => { if let Ty::Ree { .. } = n.ty { n.len += 1 + r.below(6); return "ree_len_beyond_runs" } "none" }
         19 => { if let Ty::Union { .. } = n.ty { if !n.bufs.is_empty() && !n.bufs[0].is_empty() { let i = r.below(n.bufs[0].len()); n.bufs[0][i] = *r.pick(&[1u8, 2, 200, 0x80]); return "type_id" } } "none" }
         20 => { if let Ty::Union { dense: true, .. } = n.ty { if n.bufs.len() > 1 && n.bufs[1].len() >= 4 { let i = r.below(n.bufs[1].len() / 4); put_le(&mut n.bufs[1], 4, i, *r.pick(&[-1i128, 4, 5, 100])); return "dense_offset" } } "none" }
+        22 | 23 => { // move one offset of a Utf8 array strictly inside a multi-byte character, keeping the offsets monotone
+            if let Ty::Bin { large, utf8: true } = n.ty { if n.bufs.len() == 2 {
+                let w = if large { 8 } else { 4 }; let slots = n.bufs[0].len() / w;
+                if slots > n.off && n.off + n.len < slots {
+                    let get = |b: &Vec<u8>, i: usize| -> usize { let mut v = 0usize; for k in 0..w.min(8) { v |= (b[i * w + k] as usize) << (8 * k) } v };
+                    let s = if r.bool() { n.off } else { n.off + r.below(n.len + 1) };
+                    let lo = if s > n.off { get(&n.bufs[0], s - 1) } else { 0 };
+                    let hi = if s < n.off + n.len { get(&n.bufs[0], s + 1) } else { n.bufs[1].len() };
+                    let cands: Vec<usize> = (lo..=hi.min(n.bufs[1].len().saturating_sub(1))).filter(|p| n.bufs[1].get(*p).map_or(false, |b| (0x80..0xC0).contains(b))).collect();
+                    if !cands.is_empty() { let pos = *r.pick(&cands); put_le(&mut n.bufs[0], w, s, pos as i128); return "utf8_mid_char" }
+                } } }
+            "none" }
         _ => { if let Some(x) = &mut n.nulls { x.off += 1 + r.below(8); return "nulls_off" } "none" }
     }
 }
